@@ -177,13 +177,15 @@ func checkC13(w *World, r *Report) {
 		"with MaxExtendedRound+1 = len(EndTimes) no EndTimes write is reachable in the settlement routine; with rounds left it is",
 		fmt.Sprintf("extension reachable at the limit: %v; reachable with rounds left: %v; comparison evaluated: %v — an auction can be extended beyond 1+MaxExtendedRound end times (never settles) or never extends", extEq, extNe, u1["pair0"] > 0))
 	runGuard(w, r, tm, guardSpec{rule: "EXT-BOUND", id: "CreateBatchAuction:max-rounds", root: ms["CreateBatchAuction"], commit: commitStore("Auction"), commitTxt: "the Auction record write",
-		what: "a batch auction is created only with MaxExtendedRound ≤ the constant limit",
+		what:  "a batch auction is created only with MaxExtendedRound ≤ the constant limit",
 		cases: ordCases("msg.MaxExtendedRound", "limit", func(t *Term) bool { return fieldOfParam(t, "MaxExtendedRound") }, func(t *Term) bool { return t.Op == "const" && t.Name != "nil" }, func(o int) bool { return o <= 0 }),
 		atoms: []string{"pair0"}, consequence: "an auctioneer can ask for more extension rounds than the module's bound"})
 
 	// ---------------------------------------------------------------- EXT-RULE
 	lastZero := func(o int) ordPair {
-		return ordPair{ord: o, match: pairOf(func(t *Term) bool { return fromColl(t, "MatchedBidsLen") && !t.Any(func(x *Term) bool { return x.Op == "call" && strings.HasSuffix(x.Name, "LegacyNewDec") }) },
+		return ordPair{ord: o, match: pairOf(func(t *Term) bool {
+			return fromColl(t, "MatchedBidsLen") && !t.Any(func(x *Term) bool { return x.Op == "call" && strings.HasSuffix(x.Name, "LegacyNewDec") })
+		},
 			func(t *Term) bool { return t.Key() == "const<0>" })}
 	}
 	rate := func(o int) ordPair {
